@@ -9,6 +9,8 @@
      call <paramTy> | <argTy> | <0|1 = argument is a modifiable lvalue>   ->  (ok | rej) pe=<E(arg,param)E(param,arg)E(arg,unwrapped param)E(unwrapped param,arg)>
      eqv <tyA> | <tyB>              ->  8 bits: E(A,B) E(B,A) E(&A,B) E(A,&B) E(const A,B) E(A,const B) E(&A,&B) E(B,&A)
      acc <ty>                       ->  g=<0|1> i=<0|1>     (accepted as guard / as invariant)
+     obs <OP> <ty0> | <ty1>         ->  ok | rej            (the comparison as an observation or goal of `{..} control:`: typed by
+                                                              checkExpression, then the two tests of checkObservationConstraints)
      exceptions                     ->  result-kind pairs k1/k2 on which inline-if is not symmetric (primitive branches), or `none`  -/
 import UtapModel.Gen.TypeClauses
 open UtapModel.Types UtapModel.TypeClauses
@@ -72,6 +74,10 @@ def stepLine (line : String) : String :=
       String.join [bit (areEquivalent a b), bit (areEquivalent b a), bit (areEquivalent rA b), bit (areEquivalent a rB),
                    bit (areEquivalent cA b), bit (areEquivalent a cB), bit (areEquivalent rA rB), bit (areEquivalent b rA)]
     | _ => "bad-op"
+  | "obs" :: op :: rest =>
+    match BinOp.ofName? op, (splitBar rest).map tyOf with
+    | some op, [some a, some b] => if (typeBin op a b).isNone || obsRejected op a b then "rej" else "ok"
+    | _, _ => "bad-op"
   | "acc" :: rest =>
     match tyOf rest with
     | some t => "g=" ++ bit (guardAccepted t) ++ " i=" ++ bit (invariantAccepted t)
